@@ -215,6 +215,9 @@ class SmtpRelayClient(RelayPoolClient):
     def _handle_encoding(self, envelope):
         assert self.client is not None
         if '8BITMIME' not in self.client.extensions:
+            # The caller's envelope is left as it is: should the delivery
+            # fail, it is what gets retried or bounced.
+            envelope = envelope.copy()
             try:
                 envelope.encode_7bit(self.binary_encoder)
             except UnicodeError:
@@ -222,6 +225,7 @@ class SmtpRelayClient(RelayPoolClient):
                               command=b'[data conversion]',
                               address=self.address)
                 raise SmtpRelayError.factory(reply)
+        return envelope
 
     def _send_envelope(self, rcpt_results, envelope):
         data = None
@@ -242,7 +246,7 @@ class SmtpRelayClient(RelayPoolClient):
     def _deliver(self, result, envelope):
         rcpt_results = dict.fromkeys(envelope.recipients)
         try:
-            self._handle_encoding(envelope)
+            envelope = self._handle_encoding(envelope)
             self._send_envelope(rcpt_results, envelope)
             msg_result = self._send_message_data(envelope)
         except SmtpRelayError as e:
